@@ -87,12 +87,23 @@ func (g *gen) summaryOf(pn, key string, from *tr) (sm *summary) {
 	return sm
 }
 
-func (g *gen) newTr(p *pkg, key string, fd *ast.FuncDecl, resParam int) *tr {
+func (g *gen) newTr(p *pkg, key string, fd *ast.FuncDecl, resParam int, recvMode bool, aliasArg int) *tr {
 	t := &tr{g: g, p: p, fd: fd, key: key, env: map[string]*binding{}, paramRead: map[int]bool{},
 		writes: map[int]bool{}, retAlias: -2, resParam: resParam, secUsed: map[string]bool{},
-		globals: map[string]*val{}}
+		globals: map[string]*val{}, recvMode: recvMode, aliasArg: aliasArg}
+	_, t.destRecv = destinations[p.name+"."+key]
 	add := func(name string, ty *typ, recv bool) {
 		i := len(t.params)
+		if recvMode && i == aliasArg && i > 0 {
+			// the argument IS the receiver: same object, no Coq binder
+			rv := t.params[0].v
+			if !compat(rv.t, ty) {
+				t.fail("parameter %s cannot be the receiver: type %s", name, ty)
+			}
+			t.params = append(t.params, &param{name: sanitize(name), t: ty, v: rv, alias: true})
+			t.env[name] = &binding{v: rv}
+			return
+		}
 		if name == "" || name == "_" {
 			name = "arg" + string(rune('0'+i))
 		}
@@ -173,7 +184,7 @@ func (g *gen) translate(p *pkg, key string, fd *ast.FuncDecl) *summary {
 	var t *tr
 	var body string
 	for pass := 0; ; pass++ {
-		t = g.newTr(p, key, fd, resParam)
+		t = g.newTr(p, key, fd, resParam, false, -1)
 		stmts := fd.Body.List
 		k := func() string {
 			if len(t.results) == 0 && !t.hasErr {
@@ -203,8 +214,11 @@ func (g *gen) translate(p *pkg, key string, fd *ast.FuncDecl) *summary {
 	if t.retAlias >= 0 {
 		sm.retAlias = t.retAlias
 	}
+	sm.inplace, sm.destRecv = t.inplace, t.destRecv
 	for i := range t.writes {
-		if i != sm.retAlias && i != sm.resParam {
+		if i != sm.retAlias && i != sm.resParam && !(i == 0 && t.destRecv) {
+			// (for a documented destination the receiver's final value is the
+			// separate definition <name>__recv)
 			t.cur = nil
 			t.fail("parameter %s is written but its final value is not part of the result", t.params[i].name)
 		}
